@@ -236,10 +236,10 @@ theorem nhNameLabels_spec (suffixes : List Str) (name : Str) (labels : Labels) :
       obtain ⟨rfl, _⟩ := Prod.mk.inj (Except.ok.inj h)
       simpa using c1
 
-/-- what `_parse_nh_sample` returns: `None`, or a sample without value whose name carries none of the suffixes
+/-- what `_parse_nh_sample` returns: `None`, or a sample carrying a native histogram whose name carries none of the suffixes
 (the test is made on the name before the braces and — 6c551bc — again on a name taken from the braces) -/
 def NhResult (suffixes : List Str) (o : Option OSample) : Prop :=
-  ∀ s, o = some s → s.value = none ∧ endsWithAny suffixes s.name = false
+  ∀ s, o = some s → s.nh.isSome = true ∧ endsWithAny suffixes s.name = false
 
 /-- `_parse_nh_sample` raises nothing but ValueError, and its result is as described -/
 theorem parseNhSample_spec (P : Params) (hd : DigitsNotSpace P) (text : Str) (suffixes : List Str) :
